@@ -364,7 +364,21 @@ def job(j):
 
 # ------------------------------------------------------------------ replay: concrete floats on the real class
 
+def job_pending(j):
+    """the scheduler side of "changing tempo leaves the beat/second pair continuous": a routine that is PENDING on the
+    clock while another routine changes the tempo still wakes at its beat (NRT scheduler; the scenario is C05's)"""
+    from . import c05
+    d = c05.job(j)
+    for v in d['violations']:
+        v['data']['replay']['delegate'] = 'c05'
+        v['data']['key'] = 'c12:pending:' + v['data']['key']
+    return d
+
+
 def replay(rec):
+    if rec.get('delegate') == 'c05':
+        from . import c05
+        return c05.replay(rec)
     import math
     from sc3.base import main as _m, clock as clk
     main = _m.main
@@ -575,6 +589,10 @@ def main(tier, seed):
     jobs += [dict(law='bars', bi=b) for b in bis]
     for r in run_jobs('vf.props.c12', 'job', jobs, 'nrt'):
         chk.add('laws', r)
+    pend = [dict(mode='nrt', inner='tempo', tempo=2.0, offset=o, start='play', tempo_change=3) for o in (0, 1)]
+    for r in run_jobs('vf.props.c12', 'job_pending', pend, 'nrt'):
+        chk.add('pending_tasks', r)
+    chk.require_notes('pending_tasks', ['nrt:tempo'])
     return chk.finish(explanation='each law of the property is a z3 validity query (non-linear real arithmetic with '
                                   'ToInt witnesses for congruences) over the terms computed by the real TempoClock '
                                   'methods from an arbitrary invariant-satisfying state')
